@@ -611,3 +611,121 @@ def check_klattmap(prop, tier):
         return res.finish(tier)
     finally:
         shutil.rmtree(work, ignore_errors=True)
+
+
+# --------------------------------------------------------------------------- X08: generatePIMeasures (composition of selection and reduction)
+
+_PI_STEPS = (0.25, 0.05)
+
+
+def _pi_job(job):
+    import contextlib
+    import io
+    items, start, workdir = job
+    from praatio import textgrid as tgm
+    from praatio import pitch_and_intensity as pai
+    out = []
+    files = {}
+    for i, c in enumerate(items):
+        step = _PI_STEPS[c["variant"] % len(_PI_STEPS)]
+        key = (json.dumps(c["ivs"]), c["kind"], c["variant"] % len(_PI_STEPS), c["cells"])
+        st, ret = "ok", []
+        try:
+            if key not in files:
+                span = 2 * c["cells"] * step
+                if c["kind"] == "I":
+                    tier = tgm.IntervalTier("words", [(iv["s"] * step, iv["e"] * step, iv["lab"]) for iv in c["ivs"]], 0, span)
+                else:
+                    tier = tgm.PointTier("words", [(iv["s"] * step, iv["lab"]) for iv in c["ivs"]], 0, span)
+                tg = tgm.Textgrid(0, span)
+                tg.addTier(tgm.IntervalTier("other", [(0, span, "zzz")], 0, span))
+                tg.addTier(tier)
+                fn = os.path.join(workdir, "pi-%d-%d.TextGrid" % (os.getpid(), len(files)))
+                tg.save(fn, "short_textgrid" if len(files) % 2 else "long_textgrid", True)
+                files[key] = fn
+            data = [(d["t"] * step, float(d["f0"]), float(d["in"])) for d in c["data"]]
+            with contextlib.redirect_stdout(io.StringIO()):
+                r = pai.generatePIMeasures(data, files[key], "words", c["doPitch"], None if c["window"] < 0 else c["window"], c["glob"], c["loc"])
+            ret = [[T_clampi(round(v * 100)) for v in row] for row in r]
+        except Exception as ex:  # noqa
+            st = type(ex).__name__
+        out.append({"id": start + i, "fam": "pimeasures", "op": "generatePIMeasures", "data": c["data"], "ivs": c["ivs"], "kind": c["kind"], "doPitch": c["doPitch"],
+                    "window": c["window"], "glob": c["glob"], "loc": c["loc"], "st": st, "ret": ret})
+    for fn in files.values():
+        try:
+            os.remove(fn)
+        except OSError:
+            pass
+    return out
+
+
+def T_clampi(v, lim=1000000):
+    return int(max(-lim, min(lim, v)))
+
+
+def check_pimeasures(prop, tier):
+    import random
+    res = common.Result(prop)
+    work = common.scratch()
+    sz = {"quick": dict(Cells=3, VMax=2, MaxData=2, rand=6000), "thorough": dict(Cells=3, VMax=2, MaxData=3, rand=60000)}[tier]
+    try:
+        T.praatio()
+        for m in ("SeriesProp",):
+            pass
+        fn = os.path.join(work, "PIMeasures.cfg")
+        common.write_cfg(fn, dict(Cells=sz["Cells"], VMax=sz["VMax"], MaxData=sz["MaxData"], Emit=True), invariants=["BoundaryShared", "EmitInv"])
+        r = common.run_tlc("PIMeasures", fn, work, workers=1, timeout=7200)
+        res.add_tlc(r)
+        if common.tlc_failed(r):
+            sys.stderr.write(r["out"][-3000:])
+            raise common.MachineryError("PIMeasures failed at design level")
+        emitted = common.parse_json_lines(r["out"])
+        if not emitted:
+            raise common.MachineryError("PIMeasures emitted no case")
+        res.exhaustive = True
+        vmax = sz["VMax"]
+        items = []
+        for i, c in enumerate(emitted):
+            items.append(dict(data=[{"t": d["t"], "f0": d["f0"], "in": (d["f0"] + 1) % (vmax + 1)} for d in c["data"]], ivs=c["ivs"], kind="I",
+                              doPitch=c["doPitch"], window=c["window"], glob=False, loc=0, variant=i, cells=sz["Cells"]))
+        rng = random.Random(common.SEED * 61 + 3)
+        for k in range(sz["rand"]):          # longer random cases, beyond the model's bounds, plus the rejected argument combinations
+            cells = rng.randint(2, 6)
+            cuts = sorted(rng.sample(range(0, cells + 1), rng.randint(2, min(5, cells + 1))))
+            ivs = [{"s": 2 * a, "e": 2 * b, "lab": rng.choice(["", "a", "b", "c c"])} for a, b in zip(cuts, cuts[1:]) if rng.random() < 0.8]
+            n = rng.randint(0, 10)
+            ts = sorted(rng.randint(0, 2 * cells) for _ in range(n))
+            data = [{"t": t, "f0": rng.choice([0, 0, 1, 2, 5, 9]), "in": rng.choice([0, 1, 3, 7])} for t in ts]
+            mode = rng.random()
+            glob, loc, kind = False, 0, "I"
+            if mode < 0.1:
+                glob, loc = True, rng.choice([1, 3, 5])
+            elif mode < 0.2:
+                kind = "P"
+            items.append(dict(data=data, ivs=ivs, kind=kind, doPitch=rng.random() < 0.5, window=rng.choice([-1, -1, 3, 5]), glob=glob, loc=loc,
+                              variant=k, cells=cells))
+        import multiprocessing as mp
+        size = max(1, len(items) // (2 * common.NCPU) + 1)
+        chunks = [(items[i:i + size], i, work) for i in range(0, len(items), size)]
+        with mp.get_context("fork").Pool(common.NCPU) as pool:
+            events = [e for ch in pool.map(common.Guarded(_pi_job), chunks) for e in ch]
+        events = common.split_broken(res, prop, events)
+        for i, e in enumerate(events):
+            e["id"] = i
+            res.distinct.add((len(e["data"]), len(e["ivs"]), sum(1 for iv in e["ivs"] if iv["lab"] == ""), e["doPitch"], e["window"], e["kind"], e["st"], len(e["ret"])))
+        res.add_sample(events[0])
+        res.add_sample(events[-1])
+        verdicts, nval, cmd = common.validate_traces("Trace_PIMeasures", events, work)
+        res.cmds.append(cmd)
+        res.traces += nval
+        res.evaluations += len(events)
+        res.judge(events, verdicts, common.load_findings(), lambda c: c.startswith(prop + "_"))
+        res.notes = dict(enumerated=len(emitted), random=sz["rand"], rejected=sum(1 for e in events if e["st"] != "ok"))
+        res.assumptions = ["samples in time order; values small non-negative integers (the reductions on other values are C20's subject)",
+                           "global / local normalisation paths other than their rejected combination are not modelled"]
+        res.rule = ("every case of the PIMeasures universe (TLC: tiers of up to two intervals with blank and non-blank labels x sample lists on half cells x pitch/intensity "
+                    "x median window) run on the real generatePIMeasures through a saved TextGrid file (long and short layout, dyadic and decimal scaling), plus random "
+                    "longer cases, point tiers and the rejected double normalisation; rows judged with C20's pitch and rms clauses on the model's selection")
+        return res.finish(tier)
+    finally:
+        shutil.rmtree(work, ignore_errors=True)
